@@ -22,7 +22,7 @@ REQUIRED_COUNTERS = ["c13_beam_calls", "c13_topk_audits", "c13_beams_checked", "
 MIN_NONTRIVIAL = {"quick": 2500, "thorough": 30000}
 WORKERS = {"quick": 14, "thorough": 16}
 BUDGET_S = {"quick": 500, "thorough": 3000}
-ENVS = ["tsp", "cvrp", "cvrptw", "sdvrp", "pctsp", "spctsp", "pdp", "mtvrp"]
+ENVS = ["tsp", "cvrp", "cvrptw", "sdvrp", "op", "pctsp", "spctsp", "pdp", "mtvrp"]
 
 
 def cases(tier, seed):
